@@ -120,7 +120,7 @@ namespace fixedmath
   constexpr auto fixed_substract( supported_type1 lh, supported_type2 rh) noexcept;
   
   template<typename supported_type, typename>
-  inline fixed_t & operator -= ( fixed_t & lh, supported_type rh ) noexcept;
+  constexpr fixed_t & operator -= ( fixed_t & lh, supported_type rh ) noexcept;
   
   ///\brief returns result of substraction of two arguments
   ///\notice when one of arguments is double precission operation is promoted to double
